@@ -32,6 +32,11 @@ def run(run, tier, seed, kinds=KINDS, pid=PID):
             res = explore.bfs(hc.make_expand(hc.VARIANTS[name], kinds), depth, seed=seed, merge=False,
                               bound={'variant': name, 'depth': depth, 'merged': False})
             run.add_part('bfs_unmerged:' + name, res)
+    # connections that are closed and opened again on the same identifier: mentions resolve in the new, empty table
+    from . import c04
+    res = explore.bfs(c04.expand_sink, 5 if tier == 'quick' else 7, seed=seed, bound={'sink_depth': 5 if tier == 'quick' else 7})
+    res.violations = [v for v in res.violations if v.kind.split('.')[0] == 'sink' and pid == 'C02']
+    run.add_part('reopened_identifiers', res)
     # deep chain: generation letters past z / zz
     variant = hc.VARIANTS['client']
     hist = hc.deep_chain(variant, *chain)
@@ -57,5 +62,8 @@ def run(run, tier, seed, kinds=KINDS, pid=PID):
 def replay(case):
     sut.bind()
     sut.ensure_protocols()
+    if 'sink_history' in case:
+        from . import c04
+        return c04.run_sink(case['sink_history'])[0]
     V, _ = hc.run_history(case['history'], case['variant'], check_from=0)
     return [v for v in V if v.kind.split('.')[0] in KINDS]
